@@ -46,6 +46,14 @@ RECURSIVE Compose(_)
 Compose(c) == IF c = <<>> THEN Id ELSE Mul(Head(c), Compose(Tail(c)))
 Neg(j) == IF j = 0 THEN <<0, -1, 1>> ELSE <<0, 1, -1>>
 Swap == <<1, 1, 1>>
+(* what DedupProofs.tla (TLAPS: any group, any number of functions and rounds) assumes of G, checked here for the concrete G, and
+   the homomorphism law that lets the proofs represent a recorded chain by its composition *)
+ASSUME GroupLaws == /\ Id \in G
+                    /\ \A a, b \in G : Mul(a, b) \in G
+                    /\ \A a \in G : Inv(a) \in G /\ Mul(a, Inv(a)) = Id /\ Mul(Inv(a), a) = Id /\ Mul(a, Id) = a /\ Mul(Id, a) = a
+                    /\ \A a, b, c \in G : Mul(Mul(a, b), c) = Mul(a, Mul(b, c))
+SeqsG(n) == UNION {[1..m -> G] : m \in 0..n}
+ASSUME ComposeAppend == \A c \in SeqsG(2), d \in SeqsG(2) : Compose(c \o d) = Mul(Compose(c), Compose(d))
 (* canonical parametrisation of a family: the rewriting rules drive every string towards <<c, Id>> in steps *)
 Rules(h) == {h} \cup {Mul(h, Neg(0)), Mul(h, Neg(1)), Mul(h, Swap)} \cup {Id}
 
